@@ -10,8 +10,10 @@ import Driver.Ack
 import Driver.H3Parser
 import Driver.RecvPath
 import Driver.Prot
+import Driver.Tls
 
 structure World where
+  tls : Drv.TlsW := {}
   prot : Drv.ProtW := {}
   rx : Drv.RxW := {}
   h3p : Drv.H3W := {}
@@ -67,6 +69,9 @@ def step (w : World) (line : String) : World × String :=
     else if t.startsWith "prot." then
       let (s, o) := Drv.stepProt w.prot toks
       ({ w with prot := s }, o)
+    else if t.startsWith "tls." ∨ t.startsWith "tlsc." then
+      let (s, o) := Drv.stepTls w.tls toks
+      ({ w with tls := s }, o)
     else (w, "bad-op")
 
 partial def loop (hin hout : IO.FS.Stream) (w : World) : IO Unit := do
